@@ -258,6 +258,47 @@ example : Valid init [.retain 1, .retain 1, .retain 2] ∧
     okOp (run init [.retain 1, .retain 1, .retain 2]) (.begin [1, 2]) ∧
     (step (run init [.retain 1, .retain 1, .retain 2]) (.begin [1, 2])).2 = [2] := by decide
 
+/-- **The kernel map.**  `ReleaseUdpConnStateTuples(ks)` (BeginRelease, batch delete of the returned
+keys from the conn-state map, FinalizeRelease) removes a tuple from the kernel map exactly when it
+is released by its only owner: tuples another endpoint still owns, and tuples not released, stay;
+afterwards no entry of the tracker is left in the deleting state for these keys. -/
+theorem trk_kernel_entry_removed_iff_last_owner (ops : List Op) (hv : Valid init ops) (kern ks : List Nat)
+    (hok : okOp (run init ops) (.begin ks)) (k : Nat) :
+    (k ∈ (releaseKernel (run init ops) kern ks).2 ↔
+      k ∈ kern ∧ ¬ (k ∈ ks ∧ (run init ops).own k = 1)) ∧
+    (k ∈ ks → ∀ e, (releaseKernel (run init ops) kern ks).1.ent k = some e → e.deleting = false) := by
+  have h := (trk_delete_exactly_when_last_owner_leaves ops hv ks hok).1 k
+  unfold releaseKernel
+  constructor
+  · simp only [List.mem_filter, Bool.not_eq_true', List.contains_eq_mem, decide_eq_false_iff_not]
+    rw [h]
+  · intro hk e he
+    -- keys of ks that BeginRelease did not return are not deleting afterwards either:
+    -- they were decremented (refs ≥ 1 left), skipped ones cannot occur under the discipline
+    have hI := run_inv ops init inv_init hv
+    obtain ⟨hnd, hown⟩ : ks.Nodup ∧ ∀ k ∈ ks, 1 ≤ (run init ops).own k := hok
+    obtain ⟨c1, c2, c3, _, _, _⟩ := beginLoop_spec ks (run init ops) hI.1 hnd hown
+    by_cases hr : k ∈ (step (run init ops) (.begin ks)).2
+    · exact finalizeLoop_clears _ _ k hr e (by simpa [step] using he)
+    · -- not returned: the finalize loop does not touch k, and after BeginRelease k still has an owner
+      simp only [step] at he hr
+      rw [finalizeLoop_ent_notin _ _ k hr] at he
+      have hek := c1 k
+      unfold EntOk at hek
+      simp only [step] at hek
+      rw [he] at hek
+      cases hd : e.deleting with
+      | false => rfl
+      | true =>
+        simp [hd] at hek
+        have ho := c3 k
+        simp only [hk, if_true] at ho
+        have h1 : ¬ (run init ops).own k = 1 := fun h1 => hr ((c2 k).mpr ⟨hk, h1⟩)
+        have := hown k hk
+        omega
+
+example : (releaseKernel (run init [.retain 1, .retain 1, .retain 2]) [1, 2, 3] [1, 2]).2 = [1, 3] := by decide
+
 /-- Nothing but `BeginRelease` ever issues a kernel delete: `retain`, `forget` (reload hand-over),
 `FinalizeRelease` and resumed waiters leave the delete log untouched. -/
 theorem trk_only_release_deletes (s : St) (op : Op) :
